@@ -142,7 +142,7 @@ def s_s_cost_discrete(reorder_point, order_up_to_level, holding_cost,
 	m = np.zeros(int(order_up_to_level) - int(reorder_point))
 	m[0] = 1.0 / (1 - pmf[0])
 	for j in range(1, int(order_up_to_level) - int(reorder_point)):
-		m[j] = m[0] * np.sum([pmf[l] * m[j-l] for l in range(1, j+1)])
+		m[j] = m[0] * np.sum([pmf[l] * m[j-l] for l in range(1, min(j, len(pmf)-1)+1)])
 		# old (incorrect) method:
 		# m[j] = np.sum([pmf[d] * m[j-d] for d in range(j+1)])
 
@@ -165,7 +165,7 @@ def s_s_cost_discrete(reorder_point, order_up_to_level, holding_cost,
 				holding_cost=holding_cost,
 				stockout_cost=stockout_cost,
 				demand_distrib=None,
-				demand_pmf={n: demand_pmf[n] for n in range(demand_hi)},
+				demand_pmf={n: demand_pmf[n] for n in range(demand_hi+1)},
 				base_stock_level=order_up_to_level - d)[1]
 	cost /= M[int(order_up_to_level)-int(reorder_point)]
 
